@@ -113,3 +113,65 @@ func c18StreamProofs(c *Check) {
 	}
 	c.Floor("R18.7", "proof attributions in the range container's stream form", n, 4)
 }
+
+// c18CleanEOF (R18.8): the length-delimited stream decoders end their input on a clean io.EOF
+// only. io.ErrUnexpectedEOF means a message was cut off in the middle; a decoder that treats it
+// as the end of the stream returns a container with fewer rows than were sent as a success.
+func c18CleanEOF(c *Check) {
+	p := c.P
+	c.Rule("R18.8", "stream decoders end on a clean io.EOF only: a message cut off in the middle (io.ErrUnexpectedEOF) never leads to a success return")
+	nEOF := 0
+	for _, f := range p.FuncsOfPkg("share/shwap") {
+		if f.Name() != "ReadFrom" || f.Parent() != nil {
+			continue
+		}
+		succ := blocksOfReturns(successReturns(f))
+		for _, b := range f.Blocks {
+			ifi, ok := b.Instrs[len(b.Instrs)-1].(*ssa.If)
+			if !ok {
+				continue
+			}
+			a := stripNot(ifi.Cond)
+			var which string
+			switch x := a.Base.(type) {
+			case *ssa.Call:
+				if o := calleeObj(&x.Call); o != nil && pkgPathOf(o) == "errors" && o.Name() == "Is" && len(x.Call.Args) == 2 {
+					if u, ok := x.Call.Args[1].(*ssa.UnOp); ok {
+						if g, ok := u.X.(*ssa.Global); ok && g.Pkg != nil && g.Pkg.Pkg.Path() == "io" {
+							which = g.Name()
+						}
+					}
+				}
+			case *ssa.BinOp:
+				for _, v := range []ssa.Value{x.X, x.Y} {
+					if u, ok := v.(*ssa.UnOp); ok {
+						if g, ok := u.X.(*ssa.Global); ok && g.Pkg != nil && g.Pkg.Pkg.Path() == "io" {
+							which = g.Name()
+							if x.Op == token.NEQ {
+								a.Neg = !a.Neg
+							}
+						}
+					}
+				}
+			}
+			if which == "" {
+				continue
+			}
+			if which == "EOF" {
+				nEOF++
+				continue
+			}
+			if which != "ErrUnexpectedEOF" {
+				continue
+			}
+			side := b.Succs[0]
+			if a.Neg {
+				side = b.Succs[1]
+			}
+			c.SawFunc(f)
+			res := gateWalk(p, f, succ, nil, side)
+			c.Ob("R18.8", "ErrUnexpectedEOF@"+fnName(f), !res.Reached, p.Pos(ifi.Pos()), "from the branch on which the error is io.ErrUnexpectedEOF no success return is reachable", res.Witness...)
+		}
+	}
+	c.Floor("R18.8", "clean-EOF tests in the stream decoders of share/shwap", nEOF, 1)
+}
